@@ -460,6 +460,20 @@ POSTINIT_SENSITIVE = {"extensions", "fpp_extensions", "output_dir", "exclude_dir
 VALIDATION_ERRS = {"extClash", "modClash", "docmarkClash"}
 
 
+def cli_wins(dest, exp, obs: dict) -> bool:
+    """O2: the effective value of an option given on the command line is the command-line value.  `exclude_dir` is one of
+    the options whose effective value is documented to be derived (COUPLED: it always includes the output directory, so
+    that a run never documents what an earlier run wrote): there the command-line items, followed by nothing but the
+    effective output directory, is what "wins" means."""
+    got = obs.get(dest)
+    if got == exp:
+        return True
+    if dest == "exclude_dir" and obs.get("output_dir"):
+        out = obs["output_dir"]
+        return got == (exp + US + out if len(exp) > 1 else exp[:1] + out)
+    return False
+
+
 def strip_time(obs):
     """creation_date is strftime-d with the current time unless it has no directive"""
     if obs[0] != "ok":
@@ -763,7 +777,7 @@ def well_typed_case(cx: Ctx, opts, cli, tag):
             if dest not in cx.fields:
                 continue   # reported by cli_single_stream (an option that sets no settings field)
             exp = expected_cli(cx.proj, dest, kind, cx.fields[dest], vals)
-            if o[1].get(dest) != exp:
+            if not cli_wins(dest, exp, o[1]):
                 cx.n_oracle_fail += 1
                 rep.failing_input(dict(desc, oracle="O2 command line wins", fmt=f, option=dest,
                                        expected=exp, observed=o[1].get(dest)), None)
@@ -836,7 +850,7 @@ def cli_single_stream(cx: Ctx, baseline):
             continue
         exp = expected_cli(cx.proj, dest, kind, tag, val)
         got = o[1].get(dest)
-        if got != exp:
+        if not cli_wins(dest, exp, o[1]):
             cx.n_oracle_fail += 1
             cx.rep.failing_input(dict(desc, oracle="O2 command line wins", expected=exp, observed=got), None)
 
